@@ -30,6 +30,9 @@ func checkC01(c *Ctx, r *Report) {
 	includePrereq(c, r, "C01.e", checkC05)
 	// the states on the stack must be those this parse pushed (nested parses through PushContex/PopContex)
 	c15FreshStackAll(r, "C01.e←C15.c", c.GetStaged())
+	// a lexer code may select a terminal's column only: a code translated to a nonterminal's column reads a goto
+	// entry as a shift and the parser accepts a string that contains no such derivation
+	includeSome(r, "C01.e", func(sub *Report) { c11c(c, sub, c.GetStaged()) }, "buildTranslate")
 }
 
 func c01a(c *Ctx, r *Report, st *Staged) {
@@ -331,7 +334,19 @@ func c01c(c *Ctx, r *Report, st *Staged) {
 	ast.Inspect(f.Decl.Body, func(n ast.Node) bool {
 		if rs, ok := n.(*ast.RangeStmt); ok {
 			if fv := fieldVar(info, rs.X); fv != nil && fv.Name() == "rules" {
-				rulesLoop = rs
+				// the loop that builds the grammar's rules (other loops over the user's rules may only check them)
+				inserts := false
+				ast.Inspect(rs.Body, func(m ast.Node) bool {
+					if call, ok := m.(*ast.CallExpr); ok {
+						if fn := callee(info, call); fn != nil && fn.Name() == "InsertNewRules" {
+							inserts = true
+						}
+					}
+					return true
+				})
+				if inserts || rulesLoop == nil {
+					rulesLoop = rs
+				}
 			}
 		}
 		return true
